@@ -22,6 +22,12 @@ sys.dont_write_bytecode = True
 # property -> props modules that contribute units
 PROP_MODULES = {
     'C17': ['props.c17'],
+    'C18': ['props.step'],
+    'C01': ['props.step'], 'C02': ['props.step'], 'C03': ['props.step'], 'C06': ['props.step'], 'C07': ['props.step'], 'C09': ['props.step'], 'C12': ['props.step'],
+    'C19': ['props.step'],
+    'C05': ['props.step'],
+    'C10': ['props.step'],
+    'C04': ['props.step'],
 }
 
 REPLAY_PY = os.environ.get('VERIF_REPLAY_PYTHON', '/venv/bin/python')
@@ -56,6 +62,64 @@ def collect_units(prop, tier):
     return units
 
 
+def tree_digest(tier):
+    """digest of everything a unit result depends on: the repo sources, the machinery, tier, seed, known findings"""
+    import hashlib
+    h = hashlib.sha256()
+    roots = [os.path.join(repo_path(), 'armulator')] + [os.path.join(HERE, d) for d in ('pyvc', 'spec', 'contracts', 'props')]
+    for root in roots:
+        for dp, dn, fn in sorted(os.walk(root)):
+            dn.sort()
+            if '__pycache__' in dp:
+                continue
+            for f in sorted(fn):
+                if f.endswith(('.py', '.json')):
+                    p = os.path.join(dp, f)
+                    h.update(p.encode())
+                    h.update(open(p, 'rb').read())
+    kf = os.path.join(HERE, 'known_findings.json')
+    if os.path.exists(kf):
+        h.update(open(kf, 'rb').read())
+    h.update(('%s|%s|%s' % (tier, os.environ.get('VERIF_SEED', '0'), os.environ.get('VERIF_XCHECK_N', ''))).encode())
+    return h.hexdigest()[:24]
+
+
+def cached_run(units, tier, jobs):
+    """run units, reusing results computed earlier from byte-identical sources (repo + machinery)"""
+    import hashlib
+    from pyvc import unit as U
+    use = os.environ.get('VERIF_NO_CACHE', '') == ''
+    d = os.path.join(HERE, '.cache', tree_digest(tier))
+    results, todo = [], []
+    for u in units:
+        p = os.path.join(d, hashlib.sha1(u.uid.encode()).hexdigest() + '.json')
+        if use and os.path.exists(p):
+            try:
+                r = json.load(open(p))
+                r['from_cache'] = True
+                results.append(r)
+                continue
+            except Exception:     # noqa
+                pass
+        todo.append(u.uid)
+    if todo:
+        os.makedirs(d, exist_ok=True)
+        # drop caches of other tree states (disk space)
+        base = os.path.join(HERE, '.cache')
+        for other in os.listdir(base):
+            if other != os.path.basename(d):
+                import shutil
+                shutil.rmtree(os.path.join(base, other), ignore_errors=True)
+        for r in U.run_units(todo, jobs):
+            results.append(r)
+            if use and r.get('error') is None:
+                p = os.path.join(d, hashlib.sha1(r['uid'].encode()).hexdigest() + '.json')
+                with open(p + '.tmp', 'w') as f:
+                    json.dump(r, f)
+                os.replace(p + '.tmp', p)
+    return results, len(units) - len(todo)
+
+
 def safe_name(s):
     return re.sub(r'[^A-Za-z0-9_.=,\[\]-]+', '_', s)[:180]
 
@@ -63,7 +127,9 @@ def safe_name(s):
 def write_replay(prop, unit, ob, extra=None):
     d = os.path.join(HERE, 'replays', prop)
     os.makedirs(d, exist_ok=True)
-    name = safe_name('%s__%s__%s' % (unit.uid.split('/', 1)[-1], ob['kind'], ob['label']))
+    import hashlib
+    hx = hashlib.sha1(json.dumps(ob.get('model'), sort_keys=True, default=str).encode()).hexdigest()[:8]
+    name = safe_name('%s__%s__%s' % (unit.uid.split('/', 1)[-1], ob['kind'], ob['label']))[:150] + '__' + hx
     path = os.path.join(d, name + '.json')
     rec = {'property': prop, 'module': unit.module, 'unit': unit.uid, 'obligation': '%s/%s:%s' % (unit.uid, ob['kind'], ob['label']),
            'kind': ob['kind'], 'label': ob['label'], 'inputs': ob.get('model'), 'detail': ob.get('detail', ''),
@@ -143,9 +209,7 @@ def cmd_check(prop, tier, jobs, only=None):
         U.UNITS[u.uid] = u
     U.KNOWN[:] = [k for k in known.get('findings', []) if k.get('property') == prop]
     by_uid = {u.uid: u for u in units}
-    results = []
-    for r in U.run_units([u.uid for u in units], jobs):
-        results.append(r)
+    results, n_cached = cached_run(units, tier, jobs)
     results.sort(key=lambda r: r['uid'])
 
     n_ob = n_proved = 0
@@ -183,11 +247,12 @@ def cmd_check(prop, tier, jobs, only=None):
         for ob in r['obligations']:
             if prop not in (ob.get('props') or [prop]):
                 continue
-            n_ob += 1
-            cnt += 1
+            k = ob.get('count', 1)
+            n_ob += k
+            cnt += k
             if ob['status'] == 'proved':
-                n_proved += 1
-                backends[ob['backend']] = backends.get(ob['backend'], 0) + 1
+                n_proved += k
+                backends[ob['backend']] = backends.get(ob['backend'], 0) + k
                 if len(samples) < 6 and ob['kind'] != 'cover':
                     samples.append({'obligation': '%s/%s:%s' % (r['uid'], ob['kind'], ob['label']), 'status': 'proved',
                                     'backend': ob['backend'], 'seconds': ob['seconds']})
@@ -274,7 +339,7 @@ def cmd_check(prop, tier, jobs, only=None):
         'discharged_by_backend': backends, 'solver_seconds': round(solver_s, 2),
         'undecided': ['%s: %s' % x for x in still_undecided][:50],
         'violations_replayed': len(violations), 'known_findings_confirmed': len(kf_lines),
-        'bounded_standins': [], 'engine_crosscheck_samples_vs_cpython': xcheck_tot[0],
+        'bounded_standins': [], 'unit_results_reused_from_identical_tree_cache': n_cached, 'engine_crosscheck_samples_vs_cpython': xcheck_tot[0],
         'samples': samples or [{'note': 'no proved obligation'}],
         'explanation': 'each unit = real function body interpreted from /repo source on all paths; every obligation pc => post discharged by z3',
     }
@@ -294,11 +359,15 @@ def cmd_check(prop, tier, jobs, only=None):
         for uid, why in faults[:20]:
             print('MACHINERY-FAULT unit=%s\n%s' % (uid, why))
         rc = 3
+    shown = {}
     for u, ob, path, out in violations:
         print('VIOLATION property=%s replay=%s' % (prop, path))
-        print('  obligation %s/%s:%s' % (u.uid, ob['kind'], ob['label']))
-        for ln in out.strip().splitlines()[:12]:
-            print('  | ' + ln)
+        key = (ob['kind'], ob['label'])
+        shown[key] = shown.get(key, 0) + 1
+        if shown[key] <= 2:
+            print('  obligation %s/%s:%s' % (u.uid, ob['kind'], ob['label']))
+            for ln in out.strip().splitlines()[:12]:
+                print('  | ' + ln[:400])
         rc = max(rc, 1) if rc != 3 else 3
     for uid, why, path in nofail:
         print('VIOLATION property=%s replay=%s no-failing-input-found' % (prop, path))
@@ -340,7 +409,7 @@ def cmd_baseline(props, tier):
         U.KNOWN[:] = [k for k in load_known().get('findings', []) if k.get('property') == prop]
         cnts = {}
         for r in U.run_units([u.uid for u in units]):
-            n = sum(1 for ob in r['obligations'] if prop in (ob.get('props') or [prop]) and ob['status'] == 'proved')
+            n = sum(ob.get('count', 1) for ob in r['obligations'] if prop in (ob.get('props') or [prop]) and ob['status'] == 'proved')
             if r['error'] is None and r['oos'] is None and n > 0 and all(
                     ob['status'] == 'proved' for ob in r['obligations'] if prop in (ob.get('props') or [prop])):
                 cnts[r['uid']] = n
